@@ -49,7 +49,7 @@ class Lab:
         self.protos = {p["name"]: modelgen.proto_json(self.pkg, p) for p in self.pkg.protocols()}
         if self.want_cpp:
             plist = [(n, sum(1 for s in pj if s["stream"])) for n, pj in self.protos.items()]
-            main = vlib.cpp_main(self.pymod, plist, ndjson=self.ndjson)
+            main = vlib.cpp_main(self.pymod, plist, ndjson=self.ndjson, out_cpp=self.out_cpp)
             self.exe = os.path.join(self.root, "xlate")
             ok, log = vlib.compile_cpp(self.out_cpp, main, self.exe, ndjson=self.ndjson, sanitize=self.sanitize)
             if not ok:
@@ -63,14 +63,33 @@ class Lab:
         self.seq += 1
         return os.path.join(self.root, f"io{self.seq}{suffix}")
 
-    def run_cpp(self, proto, infmt, outfmt, inpath, outpath, bufsizes=(), timeout=60):
+    def run_cpp(self, proto, infmt, outfmt, inpath, outpath, bufsizes=(), timeout=60, empty_batches=False):
         env = dict(os.environ, ASAN_OPTIONS="detect_leaks=0:abort_on_error=0", UBSAN_OPTIONS="print_stacktrace=1")
+        env.pop("VF_EMPTY_BATCHES", None)
+        if empty_batches:
+            env["VF_EMPTY_BATCHES"] = "1"
         try:
             p = subprocess.run([self.exe, proto, infmt, outfmt, inpath, outpath] + [str(b) for b in bufsizes],
                                stdout=subprocess.PIPE, stderr=subprocess.PIPE, timeout=timeout, env=env)
             return p.returncode, p.stderr.decode(errors="replace")[-2000:]
         except subprocess.TimeoutExpired:
             return -9, "TIMEOUT"
+
+    def run_cpp_multi(self, jobs, timeout=120):
+        """jobs: [(proto, infmt, outfmt, inpath, outpath, bufsizes)] run one after the other in ONE process; -> ([rc per job], stderr)"""
+        jf = self.tmp(".jobs.txt")
+        with open(jf, "w") as f:
+            for proto, infmt, outfmt, inp, outp, bufs in jobs:
+                f.write(" ".join([proto, infmt, outfmt, inp, outp] + [str(b) for b in bufs]) + "\n")
+        env = dict(os.environ, ASAN_OPTIONS="detect_leaks=0:abort_on_error=0", UBSAN_OPTIONS="print_stacktrace=1")
+        env.pop("VF_EMPTY_BATCHES", None)
+        try:
+            p = subprocess.run([self.exe, "--multi", jf], stdout=subprocess.PIPE, stderr=subprocess.PIPE, timeout=timeout, env=env)
+        except subprocess.TimeoutExpired:
+            return [-9] * len(jobs), "TIMEOUT"
+        rcs = [int(l[3:]) for l in p.stdout.decode(errors="replace").splitlines() if l.startswith("rc=")]
+        rcs += [-(p.returncode or 1)] * (len(jobs) - len(rcs))      # the process died before these jobs
+        return rcs, p.stderr.decode(errors="replace")[-3000:]
 
     def run_py(self, jobs, timeout=600):
         """jobs: list of dicts (see pyxlate.py); returns list of results."""
